@@ -121,6 +121,10 @@ class Term:
         # Now copy the content of t onto self
         self.__dict__.update(t.__dict__)
 
+        # The identity token must belong to this object, not to the copied one
+        # (whose address may be reused once it is garbage collected).
+        self._id = id(self)
+
     def is_svar(self) -> bool:
         return self.ty == Term.SVAR
 
